@@ -212,7 +212,7 @@ func init() {
 		Rule: "StatefulSets are generated as JSON over the fields the shipped CRD knows (each optional block absent / empty / partially filled / hostile: nil and negative partition, unknown policy and strategy strings, malformed and out-of-range annotations, hostile status), admitted and defaulted by an interpreter of manifests/crd.v1.yaml, decoded into the Go type, with or without client-side defaulting, combined with a random pod population at ordinals 0..9, then reconciled 6 times with kubelet progress in between; a panic (or a dead worker process) is a violation; distinct = distinct (admitted object, population)",
 		Assume: []string{"objects without a spec at all, and replicas so large that the per-ordinal slice cannot be allocated, are outside the generated domain (the statement lists the four required spec fields as validated)",
 			"JSON that the CRD admits but that does not decode into the Go type never reaches the controller (the informer fails earlier) and is skipped"},
-		Cases:            scenarioCases(4000, 120000),
+		Cases:            scenarioCases(40000, 600000),
 		Run:              runC15,
 		Floors:           []string{"reconciled_with_nil_partition", "reconciled_with_negative_partition", "without_client_side_defaulting", "with_client_side_defaulting", "annotation_slots_malformed"},
 		DeathIsViolation: true})
